@@ -66,6 +66,9 @@ pub fn check_range(origin: &str, r: &Range, from_parse: bool, st: &mut Stats) ->
             }
         }
     }
+    if let Err(m) = display_survives_failing_writer(r, &p1) {
+        return Err(Failure::new("display-depends-on-history", format!("{}: {}", origin, m)));
+    }
     // stable after one round
     let p2 = r1.to_string();
     match guard(|| Range::parse(&p2)) {
@@ -89,6 +92,21 @@ pub fn check_range(origin: &str, r: &Range, from_parse: bool, st: &mut Stats) ->
             }
         }
         Err(e) => return Err(Failure::new("serde-roundtrip-fails", format!("{}: {} does not deserialise: {}", origin, js, e))),
+    }
+    // the other front ends of serde_json (Value tree, reader, fully \u-escaped text)
+    let val = serde_json::to_value(r).map_err(|e| Failure::new("serde-serialize-fails", format!("{}: to_value: {}", origin, e)))?;
+    let escaped = format!("\"{}\"", p1.chars().map(|c| format!("\\u{:04x}", c as u32)).collect::<String>());
+    let routes: Vec<(&str, Result<Range, serde_json::Error>)> = vec![
+        ("from_value", serde_json::from_value::<Range>(val)),
+        ("from_reader", serde_json::from_reader::<_, Range>(js.as_bytes())),
+        ("from_str(escaped)", serde_json::from_str::<Range>(&escaped)),
+    ];
+    for (route, res) in routes {
+        match res {
+            Ok(d) if d == r1 => {}
+            Ok(d) => return Err(Failure::new("serde-roundtrip-differs", format!("{}: via {}: {:?} vs {:?}", origin, route, d.to_string(), r1.to_string()))),
+            Err(e) => return Err(Failure::new("serde-roundtrip-fails", format!("{}: serde_json::{} of {} fails: {}", origin, route, js, e))),
+        }
     }
     st.eval(3);
     let two_sided = im.ivs.iter().any(|i| i.lo.is_some() && i.hi.is_some() && i.lo.as_ref().map(|x| &x.0) != i.hi.as_ref().map(|x| &x.0));
